@@ -17,6 +17,7 @@ ASSUMPTIONS = ["alloc::vec::Vec and slice primitives behave as documented"]
 
 POP = "mahf::state::common::Populations"
 PK = POP + "::"
+MOD = "mahf::state::common::"     # the module's own helpers (private fns, nested modules) are followed like the methods
 
 
 class StackModel:
@@ -86,7 +87,7 @@ def evaluate(F, fn, height, extra, stack_field, inline_extra=None):
     me = mk_self(stack_field)
     from collmodel import coll_oracle, install
     it = install(Interp(fn.body, chain(StackModel(stack_field), coll_oracle, std_oracle), [me] + list(extra), facts=F,
-                        inline=lambda k: k.startswith(PK) or (inline_extra and inline_extra(k))))
+                        inline=lambda k: k.startswith(MOD) or (inline_extra and inline_extra(k))))
     it.init_state = {"stack": pops}
     return pops, it.run()
 
@@ -224,12 +225,14 @@ def r3(ctx):
                     return popsym       # (the try_ forms are derived by the accessor family: Ok of it)
                 return TOP
             from collmodel import coll_oracle, install
-            it = install(Interp(fn.body, chain(oracle, StackModel(sf), coll_oracle, std_oracle), [me, Sym("problem"), Sym("state")], facts=F, inline=lambda kk: kk.startswith(PK)))
+            it = install(Interp(fn.body, chain(oracle, StackModel(sf), coll_oracle, std_oracle), [me, Sym("problem"), Sym("state")], facts=F, inline=lambda kk: kk.startswith(MOD)))
             it.init_state = {"stack": pops}
             cnt += 1
             for p in it.run():
                 tags = [x.tag for x in pops]
                 got = [x.tag if isinstance(x, Sym) else repr(x) for x in p.mstate.get("stack", ())]
+                if p.mstate.get("unmodelled"):
+                    bad.append((h, k, "applies %s to the stack" % (p.mstate["unmodelled"],)))
                 if p.end in ("panic", "diverge"):
                     bad.append((h, k, "panics (%s); the height guard must turn this into an error" % [e.data for e in p.events if e.kind == "panic"]))
                 elif p.end == "return":
